@@ -11,6 +11,7 @@ from ..refs import prox_ref
 from ..spy import optimiser_spy, val_score_spy
 
 QUICK_SCALE = 5  # quick budgets below are multiplied by this (kept at about half a minute on 8 processes)
+THOROUGH_SCALE = 10  # thorough budgets below are multiplied by this (about ten minutes on 16 processes)
 
 RULE = ("real fits and paths of the 5 sparse estimators (any GEMINI, alpha in {0..10}, M, full / partial / no groups, batch "
         "sizes, dynamic on/off, both solvers, learning rates 0.01-0.5); weights are snapshotted right after every "
